@@ -57,6 +57,8 @@ package packet
 //@   ensures [read-whole] err == nil ==> nreadfull == old(nreadfull) + 1
 //@   modifies elemsof(byte), ngrow, nreadfull, bufcap, buflen, pooled
 //@   loop 1 invariant [detect] 2 <= detectionLength && detectionLength <= 6 && ngrow == old(ngrow) && nreadfull == old(nreadfull) && d.reader != nil
+//@   at call 1 Peek bind pk
+//@   at exit assert [header-up-to-five-bytes] !pk ==> detectionLength > 5
 //@   at call 1 LoadInt64 assert [limit-read-after-detection] packetLength > 0
 //@   at call 1 Grow assert [limit-checked] (limit <= 0 || packetLength <= limit) && packetLength > 0
 //@   at call 1 ReadFull assert [whole-packet] len(buf) == packetLength
